@@ -21,7 +21,9 @@ latest sid the server issued to transport T on namespace ns"):
   ['stale', T]                                client stopped answering pings
   ['enter', SID, room, ns] ['leave', SID, room, ns] ['close_room', room, ns]
   ['sdisc', SID, ns]                          server.disconnect()
-  ['emit', token, to, skip, ns, cb, data]     to/skip may contain SIDs
+  ['emit', token, to, skip, ns, cb, data, then]   to/skip may contain SIDs;
+      then = ['leave'|'enter', sid, room, ns] | ['close_room', room, ns] |
+      ['sdisc', sid, ns]: issued right after the emit, same coroutine
   ['rooms', SID, ns]
   ['save_session', SID, ns, value] ['get_session', SID, ns]
   ['session_block', SID, ns, updates]
@@ -401,7 +403,36 @@ class Runner:
                         kw['callback'] = acallback
                     else:
                         kw['callback'] = callback
-                res['ret'] = d.api('emit', 'tok%s' % token, data, **kw)
+                then = op[7] if len(op) > 7 else None
+                if then is None:
+                    res['ret'] = d.api('emit', 'tok%s' % token, data, **kw)
+                else:
+                    # the application's next statement follows the emit
+                    # without giving up control in between
+                    def follow():
+                        if then[0] == 'leave':
+                            return d.sio.leave_room(then[1], then[2],
+                                                    namespace=then[3])
+                        if then[0] == 'enter':
+                            return d.sio.enter_room(then[1], then[2],
+                                                    namespace=then[3])
+                        if then[0] == 'close_room':
+                            return d.sio.close_room(then[1],
+                                                    namespace=then[2])
+                        return d.sio.disconnect(then[1], namespace=then[2])
+                    if d.is_async:
+                        async def both():
+                            ret = await d.sio.emit('tok%s' % token, data,
+                                                   **kw)
+                            f = follow()
+                            if asyncio.iscoroutine(f):
+                                await f
+                            return ret
+                        res['ret'] = d.run(both())
+                    else:
+                        res['ret'] = d.api('emit', 'tok%s' % token, data,
+                                           **kw)
+                        d.call(follow)
             elif kind == 'rooms':
                 res['ret'] = sorted(
                     d.api('rooms', self.sid_of(op[1]), namespace=op[2]),
